@@ -246,12 +246,18 @@ class MHLHistory:
                 else:
                     raise errors.MissingMHLManifestException(expected_file)
 
+        # the chain file is the table of contents of the history: a manifest it doesn't list was never committed
+        # (a run that was interrupted between writing the manifest and writing the chain file) and is no generation
+        chained_filenames = {generation.ascmhl_filename for generation in history.chain.generations}
+
         hash_lists = []
         for root, directories, filenames in os.walk(asc_mhl_folder_path):
             for filename in filenames:
                 # file name example: 0001_root_2020-01-15_130000.mhl
                 # ignore ._ variants of mhl files that can happen when moving data from macOS to Windows and back
                 if (len(filename) > 2 and filename[:2] == "._") or not filename.endswith(ascmhl_file_extension):
+                    continue
+                if filename not in chained_filenames:
                     continue
                 filename_no_extension, _ = os.path.splitext(filename)
                 parts = re.findall(MHLHistory.history_file_name_regex, filename_no_extension)
